@@ -10,6 +10,7 @@ import Setec.Driver.FieldsDrv
 import Setec.Driver.UpdaterDrv
 import Setec.Driver.ConcDrv
 import Setec.Driver.ConcStoreDrv
+import Setec.Driver.AuditDrv
 import Setec.Generated.Facts
 open Setec.Driver
 
@@ -36,6 +37,11 @@ def main (args : List String) : IO UInt32 := do
     let st ← loop stdin dbLine {} 1
     printCover st.cover
     IO.println s!"SUMMARY family=db steps={st.steps} clause_evals={st.clauseEvals} propfail={st.fails} diverge={st.diverges}"
+    return 0
+  | ["auditfmt"] =>
+    let st ← loop stdin auditLine {} 1
+    printCover st.cover
+    IO.println s!"SUMMARY family=auditfmt steps={st.cases} clause_evals={st.cases * 3} propfail={st.fails} diverge={st.diverges}"
     return 0
   | ["acl"] =>
     let d := Setec.Facts.dotNL.getD false
